@@ -1,5 +1,5 @@
 #!/usr/bin/env python3
-"""usage: tools/ingest_refactor.py <Cxx> <k>
+"""usage: tools/ingest_refactor.py <Cxx> <k> [offset]
 Confirms a sub-agent's BEHAVIOUR-PRESERVING refactoring in its scratch worktree /tmp/wt-<Cxx>
 (patch applies; full suite passes with it, timing-sensitive failures re-run alone), keeps it as
 /verif/refactorings/<Cxx>-r<k>/ and records which checks (must be none) are not silent on it."""
@@ -8,7 +8,9 @@ HERE = os.path.dirname(os.path.dirname(os.path.abspath(__file__)))
 P, K = sys.argv[1], sys.argv[2]
 wt = f'/tmp/wt-{P}'
 sd = f'{wt}/_seed/{K}'
-dst = os.path.join(HERE, 'refactorings', f'{P}-r{K}')
+OFF = int(sys.argv[3]) if len(sys.argv) > 3 else 0
+RID = f'{P}-r{int(K) + OFF}'
+dst = os.path.join(HERE, 'refactorings', RID)
 def run(cmd, **kw):
     return subprocess.run(cmd, shell=True, capture_output=True, text=True, **kw)
 run('git checkout -q -- edzed', cwd=wt)
@@ -29,7 +31,7 @@ for n in ('patch.diff', 'README.md'):
         shutil.copy(f'{sd}/{n}', dst)
 r = run(f'/venv/bin/python tools/seedcheck.py {dst}', cwd=HERE)
 res = json.loads(r.stdout)
-meta = {'id': f'{P}-r{K}', 'around_property': P, 'kind': 'behaviour-preserving refactoring',
+meta = {'id': RID, 'round': 2 if OFF else 1, 'around_property': P, 'kind': 'behaviour-preserving refactoring',
         'origin': 'independent sub-agent given only the property text and a scratch worktree of /repo',
         'suite_with_patch': tail,
         'checks_not_silent': res.get('fired', {}), 'silent': not res.get('fired')}
